@@ -1370,6 +1370,9 @@ class OperatorComp(Operator):
         """Implement ``self(x[, out])``."""
         if out is None:
             return self.left(self.right(x))
+        elif self.right.is_functional:
+            # Field elements cannot be written to in-place
+            return self.left(self.right(x), out=out)
         else:
             tmp = (self.__tmp if self.__tmp is not None
                    else self.right.range.element())
